@@ -38,7 +38,7 @@ PROFILES = {
     "faults": dict(p_fault=0.4, p_callback=0.5, w_invoke=9, w_decorate=3, n_types=6),
     "trees": dict(p_late_scope_cycle=0.08, w_scope=5, max_scopes=8, p_export=0.25, early_scopes=0.5, w_decorate=2, p_fault=0.03),
     "keys": dict(p_named=0.6, p_as=0.35, p_group_result=0.4, p_dup=0.2, n_types=3, w_decorate=1, p_fault=0.02),
-    "groups": dict(p_group_result=0.7, p_group_param=0.7, p_soft=0.15, p_flatten=0.5, p_as=0.15, n_types=4,
+    "groups": dict(p_group_result=0.7, p_group_param=0.7, p_soft=0.15, p_flatten=0.5, p_as=0.3, n_types=4,
                    w_decorate=0.6, p_fault=0.05, p_export=0.2, p_group_chain=0.08, p_wrap_ty=0.25),
     "soft": dict(p_group_result=0.6, p_group_param=0.7, p_soft=0.6, n_types=4, w_decorate=0.3, p_fault=0.03, p_one_obj=0.7, p_soft_pattern=0.35),
     "decor": dict(w_decorate=7, p_multi_dec=0.35, p_group_dec=0.35, n_types=5, p_fault=0.12, w_scope=3, p_dec_chain=0.35,
